@@ -16,7 +16,7 @@ LEVEL_TEXT = ('Termination is decided by a progress rule on every loop (an exit 
               'the bookkeeping identities (volumes telescope, radii increase, gravity, enclosed mass, contiguity in every derived-geometry path, scaling) are exact identities of the extracted formulas '
               'for symbolic radii, thicknesses, masses and slice counts 2..5.')
 LEVEL_NOTE = 'Trusted: front-end, interpreter, real algebra (rounding of sums not decided). Shipped world configuration files themselves are not analysed (data, not code).'
-EXPLANATION = 'R16.1 loop progress; R16.2 inputs not mutated; R16.3 geometry/mass identities; R16.4 radius scaling and distinct names along derivation chains.'
+EXPLANATION = 'R16.1 loop progress; R16.2 inputs not mutated; R16.3 geometry/mass identities; R16.4 radius scaling and distinct names along derivation chains; R16.5 mass bookkeeping survives a derivation (parent reinit -> scale/build_from_world -> derived reinit).'
 
 
 def run(chk):
@@ -211,29 +211,9 @@ def run(chk):
     for configured in (False, True):
         wm = [X.atom(f'world_layer_mass{i}', 'pos') for i in range(3)]
         Mcfg = X.atom('M_configured', 'pos')
-        seen = {}
-
-        def expr_hook2(itp, e, fr):
-            if isinstance(e, ast.Call) and isinstance(e.func, ast.Attribute) and isinstance(e.func.value, ast.Call) and isinstance(e.func.value.func, ast.Name) and e.func.value.func.id == 'super':
-                return Opaque('parent reinit')                # nothing the mass depends on
-            if isinstance(e, ast.Call) and ast.unparse(e.func) in ('np.concatenate', 'numpy.concatenate'):
-                return [Opaque('concatenated slices')]
-            return NotImplemented
-
-        def setgeo(*args, **kwargs):
-            seen['args'] = args; seen['kwargs'] = kwargs
-        lays = tuple(Obj(name=f'L{i}', attrs={'mass': wm[i], 'is_tidal': False, 'tidal_scale': X.ZERO, 'reinit': (lambda *a_, **k_: None), **{q: Opaque(q) for q in
-                     ('radii', 'volume_slices', 'sa_slices', 'depths', 'mass_slices', 'mass_below_slices', 'density_slices', 'gravity_slices')}}) for i in range(3))
         cfgd = {'radius': X.atom('R_world', 'pos'), 'layers': {}}
         if configured: cfgd['mass'] = Mcfg
-        wobj = Obj(cls=('class', mlw, wcls), name='world', attrs={'config': cfgd, '_config': cfgd, 'layers': lays, '_layers': lays, '__iter__': lays, 'set_geometry': setgeo,
-                   'set_static_pressure': (lambda *a_, **k_: None), 'pressure_above': X.ZERO, 'tides_on': False, '_tides_on': False, '_mass': None, '_radius': None, '_volume': None, '_name': 'world', 'name': 'world'})
-        it4 = Interp(repo, hooks={'global': glob_hook, 'expr': expr_hook2, 'branch': (lambda itp, st, v, fr: (False if isinstance(v, Opaque) else None))}, max_depth=6)
-        try:
-            it4.call(mlw, wre, [], {'initial_init': True, 'reinit_geometry': True}, self_obj=wobj)
-            got = seen.get('args', (None, None))[1] if len(seen.get('args', ())) > 1 else seen.get('kwargs', {}).get('mass')
-        except Exception as ex:           # fail closed: an interpretation problem here is an analysis error of this rule
-            raise AnalysisError(f'LayeredWorld.reinit could not be interpreted on the abstract world: {ex}')
+        got = reinit_mass(repo, cfgd, wm, glob_hook)
         ref = Mcfg if configured else wm[0] + wm[1] + wm[2]
         ok = got is not None and d.equal(X.lift(got), ref)
         chk.ob('R16.3', 'LayeredWorld.reinit: the world mass handed to the geometry is ' + ('the configured mass' if configured else 'the sum of the layer masses when the configuration states none'), ok,
@@ -241,8 +221,45 @@ def run(chk):
 
     # ------------------------------------------------------------------ R16.4 scaling and names
     scaling(chk, repo, mw, d, eq)
+    derivation_mass(chk, repo, mw, d)
     chk.floor('R16.1', 5); chk.floor('R16.2', 5); chk.floor('R16.3', 30); chk.floor('R16.4', 50)
     chk.assume('radius > thickness > 0, masses > 0')
+
+
+def reinit_mass(repo, cfgd, layer_masses, glob_hook=None):
+    """Interpret LayeredWorld.reinit on an abstract world (configuration `cfgd`, stub layers with the given masses); returns the mass it hands to the world's
+    own set_geometry.  `cfgd` is the live configuration object: whatever reinit writes into it stays written."""
+    mlw = repo.by_path('TidalPy/structures/world_types/layered.py')
+    wcls = need_class(mlw, 'LayeredWorld')
+    wre = methods(wcls).get('reinit')
+    if wre is None: raise AnalysisError('LayeredWorld.reinit vanished')
+    seen = {}
+
+    def expr_hook2(itp, e, fr):
+        if isinstance(e, ast.Call) and isinstance(e.func, ast.Attribute) and isinstance(e.func.value, ast.Call) and isinstance(e.func.value.func, ast.Name) and e.func.value.func.id == 'super':
+            return Opaque('parent reinit')                # nothing the mass depends on
+        if isinstance(e, ast.Call) and ast.unparse(e.func) in ('np.concatenate', 'numpy.concatenate'):
+            return [Opaque('concatenated slices')]
+        return NotImplemented
+
+    def setgeo(*args, **kwargs):
+        seen['args'] = args; seen['kwargs'] = kwargs
+    lays = tuple(Obj(name=f'L{i}', attrs={'mass': layer_masses[i], 'is_tidal': False, 'tidal_scale': X.ZERO, 'reinit': (lambda *a_, **k_: None), **{q: Opaque(q) for q in
+                 ('radii', 'volume_slices', 'sa_slices', 'depths', 'mass_slices', 'mass_below_slices', 'density_slices', 'gravity_slices')}}) for i in range(len(layer_masses)))
+    cfgd.setdefault('layers', {})
+    wobj = Obj(cls=('class', mlw, wcls), name='world', attrs={'config': cfgd, '_config': cfgd, 'layers': lays, '_layers': lays, '__iter__': lays, 'set_geometry': setgeo,
+               'set_static_pressure': (lambda *a_, **k_: None), 'pressure_above': X.ZERO, 'tides_on': False, '_tides_on': False, '_mass': None, '_radius': None, '_volume': None, '_name': 'world', 'name': 'world'})
+    hooks = {'expr': expr_hook2, 'branch': (lambda itp, st, v, fr: (False if isinstance(v, Opaque) else None))}
+    if glob_hook is not None: hooks['global'] = glob_hook
+    it4 = Interp(repo, hooks=hooks, max_depth=6)
+    try:
+        it4.call(mlw, wre, [], {'initial_init': True, 'reinit_geometry': True}, self_obj=wobj)
+    except AnalysisError:
+        raise
+    except Exception as ex:           # fail closed: an interpretation problem here is an analysis error of this rule
+        raise AnalysisError(f'LayeredWorld.reinit could not be interpreted on the abstract world: {ex}')
+    return seen.get('args', (None, None))[1] if len(seen.get('args', ())) > 1 else seen.get('kwargs', {}).get('mass')
+
 
 
 def enclosing_func(tree, node):
@@ -350,3 +367,50 @@ def scaling(chk, repo, mw, d, eq):
         world = Obj(name='w', attrs={'config': {**nw.attrs['config']}, 'name': nm})
     chk.ob('R16.4', 'chain of 6 build_from_world derivations terminates and every derived world is named differently from the world it was derived from', ok, why or ' -> '.join(seen), mw.where(f_from), key='R16.4|derivation-chain', method='concrete interpretation of the naming logic')
     chk.note_analysed('names', ' -> '.join(seen))
+
+
+def derivation_mass(chk, repo, mw, d):
+    """R16.5: the mass bookkeeping survives a derivation.  The parent world is built first (LayeredWorld.reinit runs on its live configuration, mass taken from its
+    layers), a world is derived from it (scale_from_world / build_from_world, interpreted down to the build_world call), and the derived world's reinit runs on the
+    configuration that call receives, with the derived world's own layer masses: the mass handed to its geometry must be the sum of *its* layer masses."""
+    f_scale = need_func(mw, 'scale_from_world'); f_from = need_func(mw, 'build_from_world')
+    recorded = {}
+
+    def glob_hook(itp, mod, nm):
+        if nm == 'log': return Opaque('log')
+        return None
+
+    def call_hook(itp, f, args, kwargs, e, fr):
+        if isinstance(f, FuncRef) and f.node.name == 'build_world':
+            recorded['built'] = (args[0], args[1])
+            return Obj(name='newworld', attrs={'name': args[0], 'config': args[1]})
+        return NotImplemented
+    s = X.atom('scale', 'pos')
+    r1 = X.atom('r_core', 'pos'); r2 = X.atom('r_mantle', 'pos'); r3 = X.atom('r_crust', 'pos'); r3n = X.atom('r_crust_edited', 'pos')
+    for how in ('scale_from_world (factor > 1)', 'scale_from_world (factor < 1)', 'build_from_world (top layer radius edited)'):
+        m_old = [X.atom(f'parent_layer_mass{i}', 'pos') for i in range(3)]
+        m_new = [X.atom(f'derived_layer_mass{i}', 'pos') for i in range(3)]
+        cfg = {'name': 'Xworld', 'radius': r3, 'type': 'layered',
+               'layers': {'Core': {'radius': r1, 'density': X.atom('rho0', 'pos'), 'type': 'rock'}, 'Mantle': {'radius': r2, 'density': X.atom('rho1', 'pos'), 'type': 'rock'},
+                          'Crust': {'radius': r3, 'density': X.atom('rho2', 'pos'), 'type': 'rock'}}}
+        got0 = reinit_mass(repo, cfg, m_old, glob_hook)
+        old = Obj(name='old', attrs={'config': cfg, 'name': 'Xworld'})
+        it = Interp(repo, hooks={'global': glob_hook, 'call': call_hook, 'branch': (lambda itp, st, v, fr, big=('> 1' in how): big)}, max_depth=12, max_unroll=200)
+        recorded.clear()
+        try:
+            if how.startswith('scale'):
+                it.call(mw, f_scale, [old], {'radius_scale': s})
+            else:
+                it.call(mw, f_from, [old, {'radius': r3n, 'layers': {'Crust': {'radius': r3n}}}], {})
+        except RaiseSignal as ex:
+            raise AnalysisError(f'{how}: derivation raised on the abstract world: {ex.text}')
+        if 'built' not in recorded or not isinstance(recorded['built'][1], dict):
+            raise AnalysisError(f'{how}: the configuration handed to build_world was not captured')
+        built = recorded['built'][1]
+        got = reinit_mass(repo, built, m_new, glob_hook)
+        ref = m_new[0] + m_new[1] + m_new[2]
+        ok = got is not None and d.equal(X.lift(got), ref) and got0 is not None and d.equal(X.lift(got0), m_old[0] + m_old[1] + m_old[2])
+        chk.ob('R16.5', f'{how}: a world derived from a world whose mass came from its layers takes its mass from its own layers', ok,
+               f'derived world\'s geometry receives mass {X.show(X.lift(got)) if got is not None else None} (its layers sum to {X.show(ref)})', mw.where(f_scale if how.startswith('scale') else f_from),
+               key=f'R16.5|{how}', method='chained interpretation: parent reinit -> derivation -> derived reinit, GF(p^2) PIT')
+    chk.floor('R16.5', 3)
